@@ -285,3 +285,5 @@ func runXfer(srcDir, outDir string, c xferCfg) xferResult {
 	a.Close()
 	return res
 }
+
+func scanManifest(src string) (manifest.Manifest, error) { return manifest.Scan(src) }
